@@ -74,7 +74,14 @@ class MQTTTransport(Transport):
                 qos = 0
             tasks.append(self._subscribe(topic, qos))
 
-        await asyncio.gather(*tasks)
+        try:
+            await asyncio.gather(*tasks)
+        except BaseException:
+            # The transport is not connected if subscribing failed or was
+            # cancelled. Don't leave the client and the receive task behind.
+            with contextlib.suppress(Exception):
+                await self._disconnect()
+            raise
 
     async def disconnect(self) -> None:
         """Disconnect the transport."""
